@@ -5,7 +5,7 @@
 From Coq Require Import String ZArith List Bool Permutation.
 From SK Require Import Model.Skel Model.Stm Model.SequenceSk Gen.SkelTree.
 From SK Require Import Model.Collection Spec.Collection Proofs.CollectionDict
-     Proofs.Collection Proofs.CollectionTop Gen.XCatalog.
+     Proofs.Collection Proofs.CollectionTop Proofs.CatalogTags Gen.XCatalog.
 Import ListNotations.
 Open Scope Z_scope.
 Open Scope list_scope.
@@ -216,6 +216,24 @@ Theorem C14_statement_shapes_from_source :
   x_all_yields_every_value = true /\
   x_result_meta_none_iff_slot_none = true.
 Proof. repeat split; reflexivity. Qed.
+
+(* the catalog side of find_sequence_by_tag: after ANY registration history
+   (any order, definitions re-registered for further paths) a tag resolves
+   to exactly the definitions ever registered with it, each once *)
+Theorem C14_tag_table_complete : forall regs tg,
+  NoDup (tag_defs (tag_table regs) tg) /\
+  forall d, In d (tag_defs (tag_table regs) tg) <-> In (tg, d) regs.
+Proof. exact tag_table_spec. Qed.
+
+(* ... and register() updates the table with the NESTED tests the model's
+   register_tag has (tag known? / id already listed? / else new list) *)
+Local Open Scope string_scope.
+Theorem C14_register_tag_table_shape :
+  calls_only_list tk_register =
+  [ SIf [SIf [SIf [] []] []] []; SIf [] []; SEv (Call "expand_path");
+    SLoop [ SIf [] [SEv (Call "get_source_id")] ] ].
+Proof. vm_compute. reflexivity. Qed.
+Local Close Scope string_scope.
 
 Print Assumptions C14_len_is_sum.
 Print Assumptions C14_all_eq_items.
